@@ -64,8 +64,10 @@ def tokens(sub, optional=False):
                 out.append(("set", plain[0][1], lo, hi))
             elif lo >= 1 and len(inner_t) == 1 and inner_t[0][0] == "lit":
                 out.append(inner_t[0])
-                if hi > 1:
-                    out.append(("opt",))
+                for _ in range(min(lo, 8) - 1):
+                    out.append(inner_t[0])
+                if hi > lo:
+                    out.append(("set", frozenset({inner_t[0][1]}), 0, hi - lo))
             elif lo == 0 and len(inner_t) == 1:
                 out.append(("opt",))
             else:
@@ -158,3 +160,37 @@ def group_span(toks, gid):
         return toks.index(("open", gid)), toks.index(("close", gid))
     except ValueError:
         return None
+
+
+def may_match(toks, text):
+    """Over-approximate `re.search`: can the linearised pattern match somewhere in `text`?
+
+    Mandatory literals and character sets are matched exactly; everything `tokens` reports as ('opt',) - optional parts,
+    alternatives, look-arounds, back-references - is relaxed to "any string".  The relaxed language contains the real
+    one, so False means the real pattern cannot match `text` either (a necessary condition, decided on the regex AST)."""
+    n = len(text)
+    cur = set(range(n + 1))
+    for t in toks:
+        if not cur:
+            return False
+        if t[0] in ("open", "close"):
+            continue
+        if t[0] == "lit":
+            cur = {i + 1 for i in cur if i < n and text[i] == t[1]}
+        elif t[0] == "set":
+            _k, spec, lo, hi = t
+            nxt = set()
+            for i in cur:
+                j, k = i, 0
+                if lo == 0:
+                    nxt.add(i)
+                while j < n and k < hi and accepts(spec, text[j]):
+                    j += 1
+                    k += 1
+                    if k >= lo:
+                        nxt.add(j)
+            cur = nxt
+        else:
+            lo_i = min(cur)
+            cur = set(range(lo_i, n + 1))
+    return bool(cur)
